@@ -522,7 +522,7 @@ def extract_trace(h, rec, fail):
     cmd.insert(2, fail["prop"])
     try:
         p = subprocess.run(cmd, stdout=subprocess.PIPE, stderr=subprocess.PIPE, text=True,
-                           timeout=max(h.cap_s * 2, 120), preexec_fn=_limit(h.mem_gb))
+                           timeout=max(h.cap_s * 2, 240), preexec_fn=_limit(h.mem_gb * 2))
     except subprocess.TimeoutExpired:
         return None
     try:
@@ -530,12 +530,14 @@ def extract_trace(h, rec, fail):
     except Exception:
         return None
     vals = []
+    saw_trace = False
     for item in j:
         if not isinstance(item, dict) or "result" not in item:
             continue
         for r in item["result"]:
             if r.get("property") != fail["prop"] or "trace" not in r:
                 continue
+            saw_trace = True
             for st in r["trace"]:
                 if st.get("stepType") != "assignment":
                     continue
@@ -544,6 +546,8 @@ def extract_trace(h, rec, fail):
                 v = st.get("value") or {}
                 if lhs.startswith("goto_symex$$return_value") and "any_raw" in fn and "binary" in v:
                     vals.append(int(v["binary"], 2))
+    if not saw_trace:
+        return None     # the trace run did not confirm the failure (timeout/limit): inconclusive, not "empty input"
     return vals
 
 
